@@ -1,6 +1,6 @@
 (* C02 correspondence: one TOML document, lexed (c_raw), with what config.Parse returned for it
    (c_impl: None = error, Some = every field of every Interface incl. the plugin list, and Debug). *)
-From CR Require Export Model.Config Model.ConfigSpec.
+From CR Require Export Model.Config Model.ConfigSpec Model.ConfigWf.
 Local Open Scope Z_scope.
 
 Record case := mkCase { c_raw : raw_config; c_impl : option config }.
@@ -49,10 +49,11 @@ Definition agree (c : case) : bool :=
   end.
 
 (* the specification evaluated on the implementation's observed result:
-   accepted <-> the documented constraints hold; accepted -> exactly the documented defaults *)
+   accepted <-> the documented constraints hold; accepted -> exactly the documented defaults
+   (and, redundantly by C02_cfg_wf, every accepted interface is well formed) *)
 Definition holds (c : case) : bool :=
   match c_impl c with
-  | Some i => Accepts_b (c_raw c) && config_eqb i (defaults (c_raw c))
+  | Some i => Accepts_b (c_raw c) && config_eqb i (defaults (c_raw c)) && forallb cfg_wfb (fst i)
   | None => negb (Accepts_b (c_raw c))
   end.
 
